@@ -146,6 +146,8 @@ func runC17(c *Ctx) {
 	add := p.MustMethod(pkgConsensus, "RaftNode", "Add")
 	delegates := len(callsIn(add, func(k *ssa.CallCommon) bool { return k.StaticCallee() == ab })) == 1
 	c.Check(delegates, "R1", funcName(add), add.Pos(), "Add delegates to AddBulk (and does not send itself)", "RaftNode.Add no longer delegates to AddBulk")
+	// the published batch reaches the gossip layer: the bus hands every message to its subscribers
+	blockingDelivery(c, "R2", p.MustMethod("gossip", "MessageBus", "Publish"), "a published message")
 	// ---- R2
 	bt := p.MustMethod("server", "Sender", "batcher")
 	c17Batcher(c, bt)
@@ -194,6 +196,8 @@ func runC17(c *Ctx) {
 			}
 		}
 		c.Check(len(why) == 0, "R3", funcName(ds), ds.Pos(), "Sign(render(snapshot)) paired with the same snapshot", strings.Join(why, "; "))
+		snapshotHasNoFormatter(c, "R3")
+		signerSelfCheck(c, "R5")
 		// buffers must not be shared: the constructor stores no scratch buffers
 		ctor := p.MustFunc("server", "NewSenderWithLogger")
 		shared := ""
